@@ -97,6 +97,34 @@ theorem foldl_bounds_extremal {K : Type} [LinearOrder K] (val : Bits → K) (xs 
     · exact ⟨le_trans a1 hstep1.2, le_trans hstep2.2 a2⟩
     · exact a3 y hy
 
+/-- the same with the embedding required only on a set `S` that contains everything involved -/
+theorem foldl_bounds_extremal_on {K : Type} [LinearOrder K] (val : Bits → K) (S : List Bits)
+    (hemb : ∀ a ∈ S, ∀ b ∈ S, (lt a b = true ↔ val a < val b)) (xs : List Bits) (p : Bits × Bits)
+    (h1 : p.1 ∈ S) (h2 : p.2 ∈ S) (hs : ∀ x ∈ xs, x ∈ S) :
+    (val (xs.foldl boundsStep p).1 ≤ val p.1 ∧ val p.2 ≤ val (xs.foldl boundsStep p).2) ∧
+    ∀ x ∈ xs, val (xs.foldl boundsStep p).1 ≤ val x ∧ val x ≤ val (xs.foldl boundsStep p).2 := by
+  induction xs generalizing p with
+  | nil => simp
+  | cons x xs ih =>
+    simp only [List.foldl_cons]
+    have hx : x ∈ S := hs x (List.mem_cons_self ..)
+    have hstep1 : val (boundsStep p x).1 ≤ val p.1 ∧ val (boundsStep p x).1 ≤ val x ∧ (boundsStep p x).1 ∈ S := by
+      unfold boundsStep; dsimp only
+      by_cases h : lt x p.1 = true
+      · rw [if_pos h]; exact ⟨le_of_lt ((hemb _ hx _ h1).mp h), le_refl _, hx⟩
+      · rw [if_neg h]; exact ⟨le_refl _, not_lt.mp (fun hh => h ((hemb _ hx _ h1).mpr hh)), h1⟩
+    have hstep2 : val p.2 ≤ val (boundsStep p x).2 ∧ val x ≤ val (boundsStep p x).2 ∧ (boundsStep p x).2 ∈ S := by
+      unfold boundsStep; dsimp only
+      by_cases h : lt p.2 x = true
+      · rw [if_pos h]; exact ⟨le_of_lt ((hemb _ h2 _ hx).mp h), le_refl _, hx⟩
+      · rw [if_neg h]; exact ⟨le_refl _, not_lt.mp (fun hh => h ((hemb _ h2 _ hx).mpr hh)), h2⟩
+    obtain ⟨⟨a1, a2⟩, a3⟩ := ih (boundsStep p x) hstep1.2.2 hstep2.2.2 (fun y hy => hs y (List.mem_cons_of_mem _ hy))
+    refine ⟨⟨le_trans a1 hstep1.1, le_trans hstep2.1 a2⟩, ?_⟩
+    intro y hy
+    rcases List.mem_cons.mp hy with rfl | hy
+    · exact ⟨le_trans a1 hstep1.2.1, le_trans hstep2.2.1 a2⟩
+    · exact a3 y hy
+
 /-- sum bounds -/
 theorem sum_bounds {K : Type} [Field K] [LinearOrder K] [IsStrictOrderedRing K]
     (l : List K) (a b : K) (h : ∀ x ∈ l, a ≤ x ∧ x ≤ b) :
